@@ -12,7 +12,7 @@ EXTENDS Integers, Sequences, FiniteSets, TLC, Json
 CONSTANTS Sig,        \* sequence of slot kinds: "m" "o" "s" "t" "r" "d" "v"
           IsEnv       \* BOOLEAN
 
-Choices(k) == CASE k = "m" -> {"{}", "{x}", "tok"}
+Choices(k) == CASE k = "m" -> {"{}", "{x}", "{Xy1}", "tok"}      \* empty, one letter, upper/lower/digit mix, single token
                 [] k = "o" -> {"absent", "[]", "[x]"}
                 [] k = "s" -> {"absent", "*"}
                 [] k = "t" -> {"absent", "char"}
